@@ -480,11 +480,15 @@ def drive(pid, mod, tier, seed, replay=None, workers=None, limit=None):
             'wall_s': round(wall, 2),
             'violations': len(new),
         }
-        os.makedirs(os.path.join(VERIF, 'evidence'), exist_ok=True)
-        tmp = os.path.join(VERIF, 'evidence', pid + '.json.tmp')
+        # evidence/ describes /repo only: a run against a scratch copy (VERIF_REPO, used for
+        # deliberate breaks and seeded changes) writes beside it, into a git-ignored directory
+        edir = os.path.join(VERIF, 'evidence' if REPO == '/repo' else '.scratch-evidence')
+        ev['coverage']['subject_tree'] = REPO
+        os.makedirs(edir, exist_ok=True)
+        tmp = os.path.join(edir, pid + '.json.tmp')
         with open(tmp, 'w') as f:
             json.dump(ev, f, indent=1, default=str)
-        os.replace(tmp, os.path.join(VERIF, 'evidence', pid + '.json'))
+        os.replace(tmp, os.path.join(edir, pid + '.json'))
     print('%s tier=%s seed=%d cases=%d evaluations=%d distinct_nontrivial=%d '
           'violations=%d known=%d inconclusive=%d wall=%.1fs -> %s' %
           (pid, tier, seed, ncases, evaluations, distinct_nt, len(new),
